@@ -82,6 +82,7 @@ M = [
 # seeded changes of sub-agents: id -> check that catches it (may differ from the property it was written against)
 SEEDED_CHECK = {
     "C04-B": "C04", "C11-A": "C11", "C15-B": "C15", "C08-B": "C13", "C03-A": "C03", "C14-A": "C07", "C08-B2": "C13", "C08-B3": "C13", "C16-A3": "C12", "C14-A": "C14",
+    "C07-A4": "C11", "C08-A4": "C13", "C11-A4": "C10",
 }
 
 
